@@ -3,12 +3,15 @@ import GoMailModel.Smtp.Dial
   A strict RFC 5321 §4.1.4 reference automaton over the event trace a session leaves behind: the
   server-side view of which commands are legal when. It is the Lean twin of the harness judge
   (harness/oracle_smtp.go `judgeDialogue`), and the specification of C04's "the commands the client
-  emits form a legal session": `(judge trace).bad = false`.
+  emits form a legal session": `(judge trace).bad = false`. It also carries C03's "only complete
+  messages are committed": the end-of-data marker is legal only in state `full`, which is entered
+  only when a complete rendering was handed to the DATA stream after the 354.
 -/
 namespace GoMail.Smtp
 open GoMail
 
-inductive Tx | idle | mail | rcpt | data
+/-- `full`: inside DATA, and the client has handed over a COMPLETE rendering of the message -/
+inductive Tx | idle | mail | rcpt | data | full
 deriving Repr, DecidableEq
 
 structure J where
@@ -56,12 +59,13 @@ def J.step (j : J) (e : Ev) : J :=
   else match e with
     | .connect => { j with pending := some .greeting }
     | .cmd v _ => { j with bad := j.bad || !j.cmdOk v, pending := some v }
-    | .eod => { j with bad := j.bad || !(j.tx == .data), pending := some .eod }
+    | .eod => { j with bad := j.bad || !(j.tx == .full), pending := some .eod }
     | .reply code => j.onReply code
     | .garbage => j.onReply 0
     | .drop => { j with closed := true, pending := none }
     | .close => { j with stopped := true }
-    | .content _ _ | .deadline | .stall _ | .tlsOn | .tlsFail => j
+    | .content _ complete => if complete && j.tx == .data then { j with tx := .full } else j
+    | .deadline | .stall _ | .tlsOn | .tlsFail => j
 
 def judge (t : List Ev) : J := t.foldl J.step {}
 
